@@ -520,6 +520,8 @@ def _bracket_recorder(entity, body_event="child.run", continue_flag=False):
                 g[key] = nxt
             if m in ("eof", "rule_finished") and m != ("eof" if entity == "feature" else "rule_finished"):
                 g.setdefault("fmt.err", "wrong closing callback %s for %s" % (m, entity))
+            if m == "background":
+                g["bg_announced"] = True
             if m in ("eof", "rule_finished"):
                 g["told_finished"] = True
         elif k == "pop":
@@ -615,11 +617,17 @@ def explore_container_run(ix, cls, thorough=False, mutate=None):
         if isinstance(c, bool):
             s.ghost["@stop"] = c
         return [(s, s.alloc(HObj("ChildStub", {}, open=True, label="child")), "run item")]
+    bg_with_steps = st.alloc(HObj("BackgroundTok", {"steps": st.alloc(HObj("list", kind="list", items=["bg-step"])), "name": "bg", "inherited_steps": ()},
+                                  open=True, label="background with steps"))
+    bg_without_steps = st.alloc(HObj("BackgroundTok", {"steps": st.alloc(HObj("list", kind="list", items=[])), "name": "bg", "inherited_steps": ()},
+                                     open=True, label="background without steps"))
     fields = {
         "tags": _absl(st, "tags", tag_factory),
         "run_items": _absl(st, "run_items", child_factory),
         "scenarios": _absl(st, "scenarios_list", child_factory),
-        "background": Top("container.background", True, domain=(None, "bg")),
+        # no background / a background with steps / a background without steps of its own (a name, a description, or a rule
+        # background that only inherits): a background that exists is announced
+        "background": Top("container.background", True, domain=(None, bg_with_steps, bg_without_steps)),
         "should_skip": Top("bool:should_skip0", True, domain=(False, True)),
         "skip_reason": None,
         "hook_failed": Top("bool:hook_failed0", True, domain=(False, True)),
@@ -651,6 +659,9 @@ def explore_container_run(ix, cls, thorough=False, mutate=None):
             "before_failed": g.get("before_failed", False), "pop_raised": g.get("pop_raised", False),
             "hk": g.get("hk", "idle"), "hk_err": g.get("hk.err"), "stop_err": g.get("stop.err"),
             "fmt": [g.get("f%d" % i, "start") for i in range(w.n_formatters)], "fmt_err": g.get("fmt.err"),
+            "bg_announced": g.get("bg_announced", False),
+            "background": (s.obj(so.fields["background"]).label if isinstance(so.fields.get("background"), Ref) else
+                           ("none" if so.fields.get("background") is None else "undecided")),
             "scope": g.get("scope"), "scope_err": g.get("scope.err"),
             "n_run": g.get("n_run", 0), "cached": so.fields.get("_cached_status"), "cached_last": g.get("cached_last"),
             "hook_failed": so.fields.get("hook_failed"),
